@@ -76,8 +76,13 @@ func (r *Reader) readSecondStage(bufMeta []bufferMeta) (rb []byte, err error) {
 			rbTemp := RewriteBuffer(buffer,
 				uint32(varRecLen), uint32(numVarRecords), uint32(md.Intervals), uint64(intervalStartEpoch))
 
-			// rb = append(rb, rbTemp...)
-			if (rbCursor + len(rbTemp)) > totalDatalen {
+			// The size computed above is only an estimate (4x the compressed size): grow the
+			// buffer as often as needed. Doubling it once was not enough for very compressible
+			// data (e.g. 20000 identical records in one interval) and the copy below panicked.
+			for (rbCursor + len(rbTemp)) > totalDatalen {
+				if totalDatalen == 0 {
+					totalDatalen = len(rbTemp)
+				}
 				totalDatalen += totalDatalen
 				rb2 := make([]byte, totalDatalen)
 				copy(rb2[:rbCursor], rb[:rbCursor])
